@@ -27,36 +27,44 @@ LEVEL = "model_checking"
 
 
 # ----------------------------------------------------------------- leg A
+class _Abort(BaseException):
+    """Not an ``Exception``: what ``sys.exit()`` / Ctrl-C / a framework's control-flow signal look like."""
+
+
 class _Raises:
-    def __init__(self, which):
+    def __init__(self, which, exc=ValueError):
         self.which = which
+        self.exc = exc
 
     def __eq__(self, other):
         if "eq" in self.which:
-            raise ValueError("eq")
+            raise self.exc("eq")
         return NotImplemented
 
     __hash__ = None
 
     def __lt__(self, other):
         if "lt" in self.which:
-            raise ValueError("lt")
+            raise self.exc("lt")
         return NotImplemented
 
     def __bool__(self):
         if "bool" in self.which:
-            raise ValueError("bool")
+            raise self.exc("bool")
         return True
 
     def __contains__(self, item):
         if "contains" in self.which:
-            raise ValueError("contains")
+            raise self.exc("contains")
         return False
 
 
 class _LenRaises:
+    def __init__(self, exc=ValueError):
+        self.exc = exc
+
     def __len__(self):
-        raise ValueError("len")
+        raise self.exc("len")
 
 
 def tracer_events():
@@ -74,6 +82,10 @@ def tracer_events():
     def ctx_enable_raise(t):
         with t.temporarily_enable():
             raise ValueError("observer")
+
+    def ctx_abort(t):
+        with t.temporarily_disable():
+            raise _Abort("observer")
 
     return {
         # benign
@@ -94,6 +106,15 @@ def tracer_events():
         "ctx_disable_raises": (True, ctx_raise),
         "ctx_nested_raises": (True, ctx_nested_raise),
         "ctx_enable_raises": (True, ctx_enable_raise),
+        # the same with exceptions that are BaseException but not Exception (SystemExit from sys.exit() in a
+        # user operator, a custom BaseException): the SUT may catch those as well
+        "eq_exits": (True, lambda t: t.executed_compare_predicate(_Raises("eq", SystemExit), 1, 0, C.EQ)),
+        "lt_aborts": (True, lambda t: t.executed_compare_predicate(_Raises("lt", _Abort), 1, 0, C.LT)),
+        "bool_exits": (True, lambda t: t.executed_bool_predicate(_Raises("bool", SystemExit), 1)),
+        "len_aborts": (True, lambda t: t.executed_bool_predicate(_LenRaises(_Abort), 1)),
+        "in_exits": (True, lambda t: t.executed_compare_predicate(1, _Raises("contains", SystemExit), 2, C.IN)),
+        "inpres_aborts": (True, lambda t: t.executed_in_presence_predicate(1, _Raises("contains", _Abort), 2)),
+        "ctx_disable_aborts": (True, ctx_abort),
     }
 
 
@@ -118,7 +139,7 @@ def leg_a(ctx, depth):
             try:
                 events[name][1](t)
                 outcomes.append("ok")
-            except Exception as exc:  # noqa: BLE001  (the SUT's try/except)
+            except (Exception, SystemExit, _Abort) as exc:  # noqa: BLE001  (the SUT's try/except)
                 outcomes.append(type(exc).__name__)
         return t, outcomes
 
@@ -139,7 +160,7 @@ def leg_a(ctx, depth):
             try:
                 events[name][1](t)
                 outcome = "ok"
-            except Exception as exc:  # noqa: BLE001
+            except (Exception, SystemExit, _Abort) as exc:  # noqa: BLE001
                 outcome = type(exc).__name__
                 raised_any.add(name)
             ctx.count("transitions")
